@@ -232,6 +232,7 @@ namespace
         bool pending_changed = false;
         int n = 0;
         bool in_exec = false;
+        int nest_depth = 0;
 
         Plan generate(Rng &r, Tier tier) override
         {
@@ -272,7 +273,7 @@ namespace
                 else if (k < 780)
                     p.ops.push_back({OP_UNPLAN, (int64_t)r.below(nt)});
                 else if (k < 780 + script_pm / 2 + 60)
-                    p.ops.push_back({OP_SCRIPT, (int64_t)r.below(nt), r.range(0, 7), (int64_t)r.below(nt), interval(),
+                    p.ops.push_back({OP_SCRIPT, (int64_t)r.below(nt), r.range(0, 8), (int64_t)r.below(nt), interval(),
                                      r.range(1, 3)});
                 else if (k < 960)
                     p.ops.push_back({OP_REPLAN_SAME, (int64_t)r.below(nt)});
@@ -421,7 +422,7 @@ namespace
             // scripted callback body
             Script &s = script[id];
             executing = id;
-            if (s.kind != 0 && s.budget > 0)
+            if (s.kind != 0 && s.budget > 0 && nest_depth == 0) // (callbacks that run nested in another callback are plain ones)
             {
                 s.budget--;
                 int o = (int)mod(s.a, n);
@@ -454,6 +455,26 @@ namespace
                     do_plan(o, now, iv);
                     pending_changed = true;
                     probe("callback_planned_future");
+                    break;
+                case 8:
+                    // the callback drives the other manager's loop (a slow housekeeping queue run from a tick timer of the fast one):
+                    // that manager's due timers fire now, nested in this callback. One level only - a manager's exec() is not
+                    // entered again while it is running (that is unbounded recursion on the unchanged tree too).
+                    if (nmgr == 2)
+                    {
+                        int save_mg = cur_mg, save_exec = executing;
+                        nest_depth++;
+                        cur_mg = 1 - save_mg;
+                        mgrs[cur_mg]->exec(now);
+                        for (int i = 0; i < n; i++)
+                            if (model[i].mg == cur_mg && model[i].due(now))
+                                violate("C16/missed", "after a nested exec(%.17g) of manager %d (called from a callback of manager %d) timer %d is still due", (double)now, cur_mg, save_mg, i);
+                        cur_mg = save_mg;
+                        executing = save_exec;
+                        nest_depth--;
+                        pending_changed = true;
+                        probe("callback_ran_the_other_managers_loop");
+                    }
                     break;
                 case 7:
                     // the callback changes its own period (a back-off): the re-arm that follows uses the new interval
@@ -506,6 +527,7 @@ namespace
             now = (TT)origin * S;
             if (origin <= 0) probe("time_origin_not_positive");
             callbacks = 0;
+            nest_depth = 0;
             nops_in_plan = p.ops.size();
             callback_cap = 500000 + 20000ull * p.ops.size(); // (safety net against a timer that fires for ever; scales with the history)
             pending_changed = false;
@@ -577,7 +599,7 @@ namespace
                     do_unplan(ti);
                     break;
                 case OP_SCRIPT:
-                    script[ti].kind = (int)mod(arg(o, 2), 8);
+                    script[ti].kind = (int)mod(arg(o, 2), 9);
                     script[ti].a = arg(o, 3);
                     script[ti].b = mod(arg(o, 4) - 1, 5000) + 1;
                     script[ti].budget = (int)mod(arg(o, 5), 4);
